@@ -444,7 +444,7 @@ def _getCirculantMatrix(dim, PSF, PSF_param):
         h = np.roll(PSF, -int(dim/2))
         #h = h/np.linalg.norm(h)**2 # TODO: Normalize
         hflip = np.concatenate((h[0:1], np.flipud(h[1:])))
-        return toeplitz(hflip,h) 
+        return toeplitz(h,hflip) # first column h: A[i,j] = h[(i-j) mod dim] (convolution; toeplitz(hflip,h) is the correlation, its transpose)
 
     dim_half = dim/2
     grid = np.arange(dim_half+1)/dim
